@@ -42,8 +42,8 @@ PROPS = {
         "assumptions": ["memoisation (the AND cache) and hash-consing are not part of this model; they are the subject of C14"],
     },
     "C03": {
-        "lean_targets": ["Pep508.Theorems.C03", "Pep508.Theorems.C03b", "Pep508.Theorems.NonVacuityA"],
-        "theorems": [
+        "lean_targets": ["Pep508.Theorems.C12c", "Pep508.Theorems.C03", "Pep508.Theorems.C03b", "Pep508.Theorems.NonVacuityA"],
+        "theorems": ["Pep508.and_comm_all", 
             "Pep508.C03.canonical_relative", "Pep508.C03.equal_iff_same_function_val", "Pep508.C03.is_true_iff_val", "Pep508.C03.is_false_iff_val",
             "Pep508.C03.val_not_dense_unbounded", "Pep508.C03.lt_zero_constantly_false", "Pep508.C03.str_gap_constantly_false",
             "Pep508.C03.failure_shapes_not_separated", "Pep508.C03.relative_generalises_dense", "Pep508.C03.bounds_and", "Pep508.C03.bounds_or", "Pep508.C03.bounds_not",
@@ -106,8 +106,8 @@ PROPS = {
         "trusted": ["top_level_extra is decided by the DNF model (C05)"], "assumptions": [],
     },
     "C13": {
-        "lean_targets": ["Pep508.Theorems.C13", "Pep508.Theorems.C13b", "Pep508.Theorems.NonVacuityA"],
-        "theorems": ["Pep508.C13.evaluate_extras_sound", "Pep508.C13.evaluate_extras_false", "Pep508.evalExtras_sound",
+        "lean_targets": ["Pep508.Theorems.C13c", "Pep508.Theorems.C13", "Pep508.Theorems.C13b", "Pep508.Theorems.NonVacuityA"],
+        "theorems": ["Pep508.C13.evaluate_extras_iff_val", "Pep508.C13.evaluate_extras_exact_val", "Pep508.C13.edges_inhabited_val", "Pep508.C13.evaluate_extras_val_needs_sep", "Pep508.C13.evaluate_extras_sound", "Pep508.C13.evaluate_extras_false", "Pep508.evalExtras_sound",
                      "Pep508.C13.evaluate_extras_exact", "Pep508.C13.evaluate_extras_iff_dense", "Pep508.C13.evaluate_extras_false_iff",
                      "Pep508.C13.evaluate_extras_iff_partial", "Pep508.C13.exact_fails_over_int", "Pep508.C13.exact_fails_unordered"],
         "suites": [{"name": "algebra", "args": ["C13"]}],
@@ -118,8 +118,8 @@ PROPS = {
         "trusted": ["'variables are independent' is the model's environment (one free value per diagram variable): exactness is a theorem there; dependencies between diagram variables of the real code (`'x' in os_name` vs `os_name == 'y'`) are outside it, as the property states"], "assumptions": ["every valid interval of the value order is inhabited (dense order), or every edge interval of the diagram is inhabited"],
     },
     "C12": {
-        "lean_targets": ["Pep508.Theorems.C12", "Pep508.Theorems.C12b", "Pep508.Theorems.NonVacuityA"],
-        "theorems": ["Pep508.C12.complexify_eval", "Pep508.C12.simplify_eval_inside", "Pep508.C12.complexify_wf", "Pep508.C12.simplify_wf",
+        "lean_targets": ["Pep508.Theorems.C12c", "Pep508.Theorems.C12", "Pep508.Theorems.C12b", "Pep508.Theorems.NonVacuityA"],
+        "theorems": ["Pep508.C12.complexify_eq_and_all", "Pep508.C12.complexify_simplify_all", "Pep508.C12.simplify_complexify_all", "Pep508.C12.simplify_idem_uncond", "Pep508.C12.simplify_congr_val", "Pep508.C12.complexify_congr_val", "Pep508.C12.simplify_eq_iff_val", "Pep508.C12.simplify_eval_below_val", "Pep508.C12.simplify_eval_above_val", "Pep508.C12.bounds_complexify", "Pep508.C12.bounds_simplify", "Pep508.C12.simplify_congr_val_needs_sep_marker", "Pep508.C12.simplify_congr_val_needs_sep_range", "Pep508.C12.simplify_congr_rel", "Pep508.C12.complexify_congr_rel", "Pep508.C12.complexify_eval", "Pep508.C12.simplify_eval_inside", "Pep508.C12.complexify_wf", "Pep508.C12.simplify_wf",
                      "Pep508.C12.complexify_eq_and", "Pep508.C12.complexify_simplify", "Pep508.C12.complexify_congr",
                      "Pep508.C12.eval_pyRangeMarker", "Pep508.C12.wf_pyRangeMarker", "Pep508.simplifyEdges_ne_nil", "Pep508.filter_part",
                      "Pep508.C12.simplify_congr", "Pep508.C12.simplify_eq_iff", "Pep508.C12.simplify_complexify", "Pep508.C12.simplify_idem_all",
@@ -191,8 +191,8 @@ PROPS = {
         "trusted": ["that evaluation-time warning collection does not change results is checked by the C01 suite (four entry points)"], "assumptions": [],
     },
     "C07": {
-        "lean_targets": ["Pep508.Theorems.C07", "Pep508.Theorems.C07b", "Pep508.Theorems.C06", "Pep508.Theorems.C17", "Pep508.Theorems.C18", "Pep508.Theorems.NonVacuityC"],
-        "theorems": ["Pep508.C07.layout_accepted", "Pep508.C07.layout_accepted_marker", "Pep508.C07.layout_calls", "Pep508.C07.layout_calls_spans",
+        "lean_targets": ["Pep508.Theorems.C08b", "Pep508.Theorems.C07", "Pep508.Theorems.C07b", "Pep508.Theorems.C06", "Pep508.Theorems.C17", "Pep508.Theorems.C18", "Pep508.Theorems.NonVacuityC"],
+        "theorems": ["Pep508.C08.requirement_layout_full", "Pep508.C08.requirement_layout_components", "Pep508.C08.requirement_layout_independent", "Pep508.C08.requirement_layout_independent_den", "Pep508.C08.layout_full_never_rejected", "Pep508.C08.k2_instance_loose", "Pep508.C08.k2_instance_independent", "Pep508.C08.empty_marker_rejected", "Pep508.C07.layout_accepted", "Pep508.C07.layout_accepted_marker", "Pep508.C07.layout_calls", "Pep508.C07.layout_calls_spans",
                      "Pep508.C07.recorded_texts_trim", "Pep508.C07.layout_never_rejected", "Pep508.C07.layout_components", "Pep508.C07.layout_components_marker",
                      "Pep508.C07.whitespace_irrelevant", "Pep508.C07.whitespace_irrelevant_marker", "Pep508.C07.printed_is_layout",
                      "Pep508.C07.url_semicolon_glued_swallows_marker", "Pep508.C07.trailing_blank_after_url_semicolon_changes_outcome",
@@ -226,8 +226,8 @@ PROPS = {
         "trusted": ["diagrams in which one version value is interned under two spellings (K1) are compared semantically only"], "assumptions": ["ExtReadsPrinted x: the external version parser reads back what the printer prints (witnessed by a concrete decoder; the real pep440_rs below u64::MAX)", "SpellOK spell (normalised releases are printed under a spelling that strips back to them; witnessed)", "text round trip: bounds separated from version 0 / NUL-terminated strings, values with at most one kind of quote, modern key spellings (the carve-outs are proved necessary)"],
     },
     "C08": {
-        "lean_targets": ["Pep508.Theorems.C05", "Pep508.Theorems.C08", "Pep508.Theorems.NonVacuityC"],
-        "theorems": ["Pep508.C08.printed_form", "Pep508.C08.roundtrip", "Pep508.C08.roundtrip_marker", "Pep508.C08.marker_cursor",
+        "lean_targets": ["Pep508.Theorems.C08b", "Pep508.Theorems.C05", "Pep508.Theorems.C08", "Pep508.Theorems.NonVacuityC"],
+        "theorems": ["Pep508.C08.requirement_roundtrip_full", "Pep508.C08.requirement_roundtrip_true", "Pep508.C08.requirement_roundtrip_false", "Pep508.C08.requirement_roundtrip", "Pep508.C08.requirement_roundtrip_identity", "Pep508.C08.printed_never_rejected", "Pep508.C08.unnamed_roundtrip_full", "Pep508.C08.k1_instance", "Pep508.C08.k1_instance_url", "Pep508.C08.printed_form", "Pep508.C08.roundtrip", "Pep508.C08.roundtrip_marker", "Pep508.C08.marker_cursor",
                      "Pep508.C08.calls", "Pep508.C08.calls_spans", "Pep508.C08.never_rejected", "Pep508.C08.name_fixed",
                      "Pep508.C08.no_dot_not_archive", "Pep508.C08.url_semicolon_marker_rejected", "Pep508.C08.archive_name_rejected",
                      "Pep508.C05.false_literal", "Pep508.C05.quote_choice"],
@@ -264,8 +264,8 @@ PROPS = {
         "trusted": ["url::Url::parse and its Display"], "assumptions": [],
     },
     "C14": {
-        "lean_targets": ["Pep508.Theorems.C14", "Pep508.Theorems.NonVacuityD"],
-        "theorems": ["Pep508.C14.inv_init", "Pep508.C14.ids_canonical", "Pep508.C14.old_ids_stable", "Pep508.C14.and_refines", "Pep508.C14.or_refines", "Pep508.C14.create_node_refines", "Pep508.C14.cache_transparent", "Pep508.C14.same_id_later", "Pep508.C14.history_independent", "Pep508.C14.and_after_any_history", "Pep508.andF_fuel_irrelevant"],
+        "lean_targets": ["Pep508.Theorems.C14b", "Pep508.Theorems.NonVacuityE", "Pep508.Theorems.C14", "Pep508.Theorems.NonVacuityD"],
+        "theorems": ["Pep508.C14.restrict_refines", "Pep508.C14.restrict_history_independent", "Pep508.C14.restrict_same_id_later", "Pep508.C14.restrict_twice", "Pep508.C14.not_refines", "Pep508.C14.is_disjoint_refines_tree", "Pep508.C14.is_disjoint_history_independent", "Pep508.C14.seeded_bug_not_refines", "Pep508.C14.seeded_bug_history_dependent", "Pep508.C14.seeded_bug_repair", "Pep508.C14.inv_init", "Pep508.C14.ids_canonical", "Pep508.C14.old_ids_stable", "Pep508.C14.and_refines", "Pep508.C14.or_refines", "Pep508.C14.create_node_refines", "Pep508.C14.cache_transparent", "Pep508.C14.same_id_later", "Pep508.C14.history_independent", "Pep508.C14.and_after_any_history", "Pep508.andF_fuel_irrelevant"],
         "suites": [{"name": "hist", "args": ["C14"]}],
         "rule": "(1) the id-level model (arena + unique table + AND cache + complemented edges) is run by the driver on pool operands after random warm-up contents of the arena and cache: "
                 "its result must denote Tree.and of the operands, equal the implementation's dump, be stable under a cache hit, under operand swap and in a fresh arena, and ids must be "
@@ -275,8 +275,8 @@ PROPS = {
         "trusted": ["FxHashMap / boxcar are assumed to be a correct map / append-only vector"], "assumptions": [],
     },
     "C15": {
-        "lean_targets": ["Pep508.Theorems.C15", "Pep508.Theorems.NonVacuityD"],
-        "theorems": ["Pep508.C15.schedule_inv", "Pep508.C15.step_result_independent_of_interleaving", "Pep508.C15.racing_threads_same_id", "Pep508.C14.and_refines", "Pep508.C14.ids_canonical"],
+        "lean_targets": ["Pep508.Theorems.C14b", "Pep508.Theorems.NonVacuityE", "Pep508.Theorems.C15", "Pep508.Theorems.NonVacuityD"],
+        "theorems": ["Pep508.C15.schedule_inv'", "Pep508.C15.step_result_independent_of_interleaving'", "Pep508.C15.restrict_independent_of_interleaving", "Pep508.C15.racing_threads_same_id'", "Pep508.C15.schedule_inv", "Pep508.C15.step_result_independent_of_interleaving", "Pep508.C15.racing_threads_same_id", "Pep508.C14.and_refines", "Pep508.C14.ids_canonical"],
         "suites": [{"name": "hist", "args": ["C15"]}],
         "rule": "2, 8 and 16 threads released by a barrier execute the same script (parse, and, or, not, simplify_extras, render, DNF, ==, cmp, hash) on literals salted per run so that all "
                 "threads race to create the same NEW nodes; every thread's transcript must equal the others' and a sequential run in a fresh process; panics and a 60 s deadlock "
@@ -284,8 +284,8 @@ PROPS = {
         "trusted": ["memory ordering of the lock-free arena reads and deadlock-freedom of std::sync::Mutex are outside any executable model"], "assumptions": [],
     },
     "C19": {
-        "lean_targets": ["Pep508.Theorems.C19", "Pep508.Theorems.C19b", "Pep508.Theorems.NonVacuityC"],
-        "theorems": ["Pep508.C19.unnamed_no_panic", "Pep508.C19.unnamed_err_boundary", "Pep508.C19.unnamed_call_span", "Pep508.C19.scan_is_rule", "Pep508.C19.parse_unnamed_url_is_rule", "Pep508.C19.rule_is_first_stop", "Pep508.C19.token_no_ws", "Pep508.C19.ws_in_brackets", "Pep508.C19.accepts", "Pep508.C19.accepts_marker", "Pep508.C19.roundtrip", "Pep508.C19.roundtrip_marker", "Pep508.C19.bracket_ambiguity", "Pep508.C19.old_requirement_end", "Pep508.C19.archive_rule", "Pep508.C19.scheme_rule", "Pep508.C19.path_unsupported", "Pep508.C19.path_never_accepted",
+        "lean_targets": ["Pep508.Theorems.C08b", "Pep508.Theorems.C19", "Pep508.Theorems.C19b", "Pep508.Theorems.NonVacuityC"],
+        "theorems": ["Pep508.C08.unnamed_roundtrip_full", "Pep508.C08.unnamed_layout_full", "Pep508.C19.unnamed_no_panic", "Pep508.C19.unnamed_err_boundary", "Pep508.C19.unnamed_call_span", "Pep508.C19.scan_is_rule", "Pep508.C19.parse_unnamed_url_is_rule", "Pep508.C19.rule_is_first_stop", "Pep508.C19.token_no_ws", "Pep508.C19.ws_in_brackets", "Pep508.C19.accepts", "Pep508.C19.accepts_marker", "Pep508.C19.roundtrip", "Pep508.C19.roundtrip_marker", "Pep508.C19.bracket_ambiguity", "Pep508.C19.old_requirement_end", "Pep508.C19.archive_rule", "Pep508.C19.scheme_rule", "Pep508.C19.path_unsupported", "Pep508.C19.path_never_accepted",
                      "Pep508.C19.scheme_url_unsupported", "Pep508.C19.scheme_url_never_accepted", "Pep508.C19.relpath_unsupported",
                      "Pep508.C19.relpath_never_accepted", "Pep508.C19.archive_name_unsupported", "Pep508.C19.archive_name_extras_unsupported",
                      "Pep508.C19.archive_name_never_accepted", "Pep508.C19.scheme_not_a_name", "Pep508.C19.span_conventions"],
